@@ -133,6 +133,7 @@ def explore(ctx):
     interpolatable_section(ctx)
     features_section(ctx)
     script_section(ctx)
+    master_only_glyph_section(ctx)
     layer_section(ctx)
     instance_section(ctx)
 
@@ -586,6 +587,60 @@ def script_section(ctx):
             bad = [(x, y) for x in remaining for y in remaining if la.pair_adjust(ka, x, y)[:3] != lb.pair_adjust(kb, x, y)[:3]]
             if bad:
                 ctx.spec_failure(dict(case, script=tag, pairs=bad[:4]), "kerning of remaining pairs under %s differs from the font with the glyph deleted beforehand: %r" % (tag, bad[:4]))
+                break
+
+
+def master_only_glyph_section(ctx):
+    """a non-exported glyph that exists in ONE master only -- a non-default one (a leftover drawn in Bold only, with a code point
+    and a kerning pair there) or the default one: it is in no compiled master's glyph order, cmap or metrics, and every master
+    equals the one compiled from the same sources without that glyph"""
+    import ufo2ft
+    from fontTools.ttLib import TTFont
+    from harness import dsgen
+    rng = ctx.subrng("master-only-glyph")
+    sq = lambda x, d: [[(Fr(x), Fr(0), "line"), (Fr(x + d), Fr(0), "line"), (Fr(x + d), Fr(d), "line"), (Fr(x), Fr(d), "line")]]
+    for i in range(ctx.budget(6, 12)):
+        lib = ["ufoLib2", "defcon"][i % 2]
+        fn = ["compileInterpolatableTTFsFromDS", "compileInterpolatableOTFsFromDS", "compileInterpolatableTTFs"][(i // 2) % 3]
+        holder = [1, 1, 0][(i // 2) % 3] if i < 6 else i % 2          # the master that alone has the glyph
+
+        def master(k, with_draft):
+            gl = [{"name": n, "unicodes": [u], "width": Fr(500 + 10 * k), "contours": sq(10 + j, 300 + 10 * k), "components": [], "anchors": []}
+                  for j, (n, u) in enumerate([("a", 0x61), ("b", 0x62), ("c", 0x63)])]
+            kern = {("a", "b"): Fr(-20 - k)}
+            if with_draft and k == holder:
+                gl.append({"name": "_draft", "unicodes": [0xE000], "width": Fr(640), "contours": sq(30, 200), "components": [], "anchors": []})
+                kern[("_draft", "a")] = Fr(-40)
+            return {"glyphs": gl, "glyphOrder": [g["name"] for g in gl], "kerning": kern, "groups": {}, "lib": {},
+                    "info": {"familyName": "Fam", "styleName": "M%d" % k, "unitsPerEm": 1000, "ascender": 800, "descender": -200}}
+        case = {"function": fn, "lib": lib, "master_with_the_glyph": holder, "skipExportGlyphs": ["_draft"], "font": jsonable(master(holder, True))}
+        ctx.count(); ctx.klass("a non-exported glyph in master %d only / %s" % (holder, fn)); ctx.nontriv(("mog", i, ctx.scale))
+        try:
+            outs = []
+            for with_draft in (True, False):
+                ms = [master(0, with_draft), master(1, with_draft)]
+                if fn == "compileInterpolatableTTFs":
+                    fonts = [build_font(m, lib) for m in ms]
+                    res = list(ufo2ft.compileInterpolatableTTFs(fonts, skipExportGlyphs=["_draft"], useProductionNames=False))
+                else:
+                    ds, fonts = dsgen.make_designspace(rng, ms, lib, instances=False)
+                    ds.lib["public.skipExportGlyphs"] = ["_draft"]
+                    res = [s_.font for s_ in getattr(ufo2ft, fn)(ds, useProductionNames=False).sources]
+                fs = []
+                for tt in res:
+                    b = io.BytesIO(); tt.save(b); fs.append(TTFont(io.BytesIO(b.getvalue())))
+                outs.append(fs)
+        except Exception as e:
+            ctx.spec_failure(case, "%s raised %s: %s\n%s" % (fn, type(e).__name__, e, traceback.format_exc()[-1000:]))
+            continue
+        for k, (tt, ref) in enumerate(zip(*outs)):
+            if tt.getGlyphOrder() != [".notdef", "a", "b", "c"] or 0xE000 in (tt.getBestCmap() or {}) or "_draft" in tt["hmtx"].metrics:
+                ctx.spec_failure(dict(case, master=k, glyph_order=tt.getGlyphOrder(), cmap=sorted(tt.getBestCmap() or {})),
+                                 "master %d: the non-exported glyph is still there (glyph order %r)" % (k, tt.getGlyphOrder()))
+                break
+            diff = [t for t in ("hmtx", "cmap", "GPOS", "glyf", "CFF ") if (t in tt.reader) != (t in ref.reader) or (t in tt.reader and tt.reader[t] != ref.reader[t])]
+            if diff:
+                ctx.spec_failure(dict(case, master=k, tables=diff), "master %d differs in %r from the one compiled without the glyph in the sources" % (k, diff))
                 break
 
 
